@@ -39,7 +39,7 @@ Definition SInv (i : nat) (st : state) (mn : mon) (acc : bool) : Prop :=
 Lemma on_slot_step : forall st j h i acc' mn1,
   (i <> j -> SInv i st mn1 acc') ->
   (i = j -> forall s, nth_error (sl st) i = Some s ->
-            W (Inv acc') mn1 (h (mkM s (nreq st) (free st) (queue st) []))) ->
+            W (Inv acc') mn1 (h (mkM s (nreq st) (free st) (queue st) [] (free6 st)))) ->
   exists mn', mon_outs i (snd (on_slot st j h)) mn1 = Some mn' /\ SInv i (fst (on_slot st j h)) mn' acc'.
 Proof.
   intros st j h i acc' mn1 Hne Heq. unfold on_slot. destruct (Nat.eq_dec i j) as [E|E].
@@ -69,29 +69,70 @@ Lemma Inv_mon_in : forall acc s mn i e,
   Inv acc s mn -> Inv (acc_upd i e mn acc) s (mon_in i e mn).
 Proof.
   intros acc s mn i e He K. unfold acc_upd.
-  destruct e as [j|j f|k a|j t|j|j| ]; cbn [mon_in]; try (apply Inv_acc_mono; exact K).
+  destruct e as [j|j f|k a|j t|j|j| |jh k a]; cbn [mon_in]; try (apply Inv_acc_mono; exact K).
   - apply Nat.eqb_neq in He. rewrite He. apply Inv_acc_mono; exact K.
   - destruct (mcur mn) as [k'|] eqn:Ec; [|apply Inv_acc_mono; exact K].
     destruct (Nat.eqb k k' && allowed_of a); [|apply Inv_acc_mono; exact K].
     cbn [mok]. rewrite orb_true_r, <- Ec. eapply Inv_accept; eauto.
   - apply Nat.eqb_neq in He. rewrite He. apply Inv_acc_mono; exact K.
   - apply Nat.eqb_neq in He. rewrite He. apply Inv_acc_mono; exact K.
+  - destruct (mcur mn) as [k'|] eqn:Ec; [|apply Inv_acc_mono; exact K].
+    destruct (Nat.eqb k k' && allowed_of a); [|apply Inv_acc_mono; exact K].
+    cbn [mok]. rewrite orb_true_r, <- Ec. eapply Inv_accept; eauto.
 Qed.
 Lemma SInv_mon_in : forall i st mn acc e,
   (match e with EvOpen j | EvPadt j | EvDead j => i <> j | _ => True end) ->
   SInv i st mn acc -> SInv i st (mon_in i e mn) (acc_upd i e mn acc).
 Proof. intros i st mn acc e He K s Hs. apply Inv_mon_in; auto. Qed.
 
-Lemma W_init : forall (P : sess -> mon -> Prop) mn s n fr q, P s mn -> W P mn (mkM s n fr q []).
+Lemma W_init : forall (P : sess -> mon -> Prop) mn s n fr q f6, P s mn -> W P mn (mkM s n fr q [] f6).
 Proof. intros. exists mn. split; auto. Qed.
 
 (* ------------------------------------------------------------------ *)
 (* one step of the component *)
-Lemma step_Inv : forall v i st e mn acc, vrep v = true -> SInv i st mn acc ->
+(* an AAA answer applied to slot j, whose session is live and has request k outstanding; [e] is the event that
+   carries it (EvAAA k a, or EvAAAHeld j k a): the monitor treats both alike *)
+Lemma aaa_slot_step : forall v i st mn acc j k a e sj, vrep v = true -> SInv i st mn acc ->
+  (forall mn1, mon_in i e mn1 = mon_in i (EvAAA k a) mn1) ->
+  (match e with EvOpen _ | EvPadt _ | EvDead _ => False | _ => True end) ->
+  (match e with EvOpen _ => False | _ => True end) ->
+  nth_error (sl st) j = Some sj -> pend_matches v k sj = true ->
+  exists mn', mon_outs i (snd (on_slot st j (aaa_apply v j a))) (mon_in i e mn) = Some mn' /\
+              SInv i (fst (on_slot st j (aaa_apply v j a))) mn' (acc_upd i e mn acc).
+Proof.
+  intros v i st mn acc j k a e sj Hv HS Hmi He1 He2 Hn Hp.
+  destruct (aaa_needs_pending v k sj Hv Hp) as (Hl & Hpe & Hk).
+  assert (EA : acc_upd i e mn acc = acc_upd i (EvAAA k a) mn acc).
+  { unfold acc_upd. rewrite Hmi. destruct e; try contradiction; reflexivity. }
+  rewrite EA, Hmi.
+  apply on_slot_step.
+  - intros E. apply (SInv_mon_in i st mn acc (EvAAA k a)); auto.
+  - intros E s Hs. subst j. rewrite Hn in Hs. inversion Hs; subst sj. clear Hs.
+    pose proof (HS s Hn) as K.
+    destruct (gi_pend _ _ (inv_gi _ _ _ K) k Hpe) as [L|[Hc Hph]]; [congruence|].
+    unfold acc_upd, aaa_apply. cbn [mon_in]. rewrite Hc, Nat.eqb_refl. cbn [andb].
+    destruct a; cbn [allowed_of mok].
+    + rewrite orb_true_r. rewrite andb_false_r. cbn [andb]. apply on_auth_allowed_Inv. apply W_init. rewrite <- Hc.
+      split; [eapply Inv_accept; eauto|]. cbn; auto.
+    + rewrite orb_true_r. rewrite andb_false_r. cbn [andb]. apply on_auth_allowed_Inv. apply W_init. rewrite <- Hc.
+      split; [eapply Inv_accept; eauto|]. cbn; auto.
+    + rewrite Hv. cbn [andb negb].
+      assert (D : W (Inv (acc || mok mn)) mn (on_auth_result v i false false (mkM s (nreq st) (free st) (queue st) [] (free6 st))))
+        by (apply on_auth_denied_Inv; auto; apply W_init; apply Inv_acc_mono; auto).
+      destruct (live (ms (on_auth_result v i false false (mkM s (nreq st) (free st) (queue st) [] (free6 st))))); [|exact D].
+      apply terminate_T. exact D.
+    + rewrite Hv. cbn [andb negb].
+      assert (D : W (Inv (acc || mok mn)) mn (on_auth_result v i false false (mkM s (nreq st) (free st) (queue st) [] (free6 st))))
+        by (apply on_auth_denied_Inv; auto; apply W_init; apply Inv_acc_mono; auto).
+      destruct (live (ms (on_auth_result v i false false (mkM s (nreq st) (free st) (queue st) [] (free6 st))))); [|exact D].
+      apply terminate_T. exact D.
+Qed.
+
+Lemma step_Inv : forall v i st e mn acc, vrep v = true -> vhl v = true -> SInv i st mn acc ->
   exists mn', mon_outs i (snd (step v st e)) (mon_in i e mn) = Some mn' /\
               SInv i (fst (step v st e)) mn' (acc_upd i e mn acc).
 Proof.
-  intros v i st e mn acc Hv HS. destruct e as [j|j f|k a|j t|j|j| ]; cbn [step].
+  intros v i st e mn acc Hv Hh HS. destruct e as [j|j f|k a|j t|j|j| |jh k a]; cbn [step].
   - (* PADR *)
     apply on_slot_step.
     + intros E. apply SInv_mon_in; auto.
@@ -102,28 +143,15 @@ Proof.
     + intros E. apply SInv_mon_in; auto.
     + intros E s Hs. subst j. cbn [ms]. destruct (live s).
       * assert (K : W (Inv (acc_upd i (EvFrame i f) mn acc)) (mon_in i (EvFrame i f) mn)
-                      (handle_frame v i f (mkM s (nreq st) (free st) (queue st) []))).
+                      (handle_frame v i f (mkM s (nreq st) (free st) (queue st) [] (free6 st)))).
         { apply handle_frame_Inv; auto. apply W_init; apply (Inv_mon_in acc s mn i (EvFrame i f) I); auto. }
-        destruct (vtd v && in_net (ph s) && existsb is_lcp_down (mo (handle_frame v i f (mkM s (nreq st) (free st) (queue st) [])))); [|exact K].
+        destruct (vtd v && in_net (ph s) && existsb is_lcp_down (mo (handle_frame v i f (mkM s (nreq st) (free st) (queue st) [] (free6 st))))); [|exact K].
         apply terminate_T. exact K.
       * apply W_init; apply (Inv_mon_in acc s mn i (EvFrame i f) I); auto.
   - (* AAA answer *)
     destruct (find_idx (pend_matches v k) (sl st) 0) as [j|] eqn:Ef.
     + destruct (find_idx_spec _ _ _ _ _ Ef) as (sj & _ & Hn & Hp). rewrite Nat.sub_0_r in Hn.
-      destruct (aaa_needs_pending v k sj Hv Hp) as (Hl & Hpe & Hk).
-      apply on_slot_step.
-      * intros E. apply SInv_mon_in; auto.
-      * intros E s Hs. subst j. rewrite Hn in Hs. inversion Hs; subst sj. clear Hs.
-        pose proof (HS s Hn) as K.
-        destruct (gi_pend _ _ (inv_gi _ _ _ K) k Hpe) as [L|[Hc Hph]]; [congruence|].
-        unfold acc_upd. cbn [mon_in]. rewrite Hc, Nat.eqb_refl. cbn [andb].
-        destruct a; cbn [allowed_of mok].
-        -- rewrite orb_true_r. rewrite andb_false_r. apply on_auth_allowed_Inv. apply W_init. rewrite <- Hc.
-           split; [eapply Inv_accept; eauto|]. cbn; auto.
-        -- rewrite orb_true_r. rewrite andb_false_r. apply on_auth_allowed_Inv. apply W_init. rewrite <- Hc.
-           split; [eapply Inv_accept; eauto|]. cbn; auto.
-        -- rewrite Hv. cbn [andb negb]. apply terminate_T. apply on_auth_denied_Inv; auto. apply W_init. apply Inv_acc_mono; auto.
-        -- rewrite Hv. cbn [andb negb]. apply terminate_T. apply on_auth_denied_Inv; auto. apply W_init. apply Inv_acc_mono; auto.
+      apply (aaa_slot_step v i st mn acc j k a (EvAAA k a) sj); auto.
     + cbn [fst snd mon_outs]. eexists; split; [reflexivity|]. apply SInv_mon_in; auto.
   - (* timer *)
     apply on_slot_step.
@@ -151,6 +179,13 @@ Proof.
     destruct (queue st) as [|[j g] q]; [eexists; split; [reflexivity|exact K]|].
     destruct (nth_error (sl st) j) as [s|]; [destruct (Nat.eqb (gen s) g)|]; cbn [fst snd];
       eexists; (split; [try apply O; reflexivity|exact K]).
+  - (* an answer matched earlier: with [vhl] it is applied only if the session is still live with that request *)
+    destruct (nth_error (sl st) jh) as [sj|] eqn:Hn;
+      [|cbn [fst snd mon_outs]; eexists; split; [reflexivity|]; apply SInv_mon_in; auto].
+    unfold held_matches. rewrite Hh. cbn [negb andb]. rewrite orb_false_r.
+    destruct (pend_matches v k sj) eqn:Hp;
+      [|cbn [fst snd mon_outs]; eexists; split; [reflexivity|]; apply SInv_mon_in; auto].
+    apply (aaa_slot_step v i st mn acc jh k a (EvAAAHeld jh k a) sj); auto.
 Qed.
 
 (* ------------------------------------------------------------------ *)
@@ -169,44 +204,44 @@ Qed.
 Lemma run_events : forall v evs st, map fst (snd (run v st evs)) = evs.
 Proof. induction evs as [|e r IH]; intros st; [reflexivity|]. rewrite run_cons. cbn [snd map fst]. rewrite IH. reflexivity. Qed.
 
-Lemma run_Inv : forall v i evs st mn acc, vrep v = true -> SInv i st mn acc ->
+Lemma run_Inv : forall v i evs st mn acc, vrep v = true -> vhl v = true -> SInv i st mn acc ->
   exists mn', mon_run i (snd (run v st evs)) mn = Some mn' /\
               SInv i (fst (run v st evs)) mn' (ever_ok i (snd (run v st evs)) mn acc).
 Proof.
-  induction evs as [|e r IH]; intros st mn acc Hv HS.
+  induction evs as [|e r IH]; intros st mn acc Hv Hh HS.
   - exists mn. split; auto.
   - rewrite run_cons. cbn [fst snd mon_run ever_ok].
-    destruct (step_Inv v i st e mn acc Hv HS) as (mn1 & Hm & HS1). rewrite Hm.
+    destruct (step_Inv v i st e mn acc Hv Hh HS) as (mn1 & Hm & HS1). rewrite Hm.
     apply IH; auto.
 Qed.
 
-Lemma SInv_init : forall i pool, SInv i (init pool) mon0 false.
+Lemma SInv_init : forall i pool p6 ppd, SInv i (init3 pool p6 ppd) mon0 false.
 Proof.
-  intros i pool s Hs. apply nth_error_In in Hs. apply repeat_spec in Hs. subst s.
+  intros i pool p6 ppd s Hs. apply nth_error_In in Hs. apply repeat_spec in Hs. subst s.
   constructor; [constructor|..]; cbn; auto; try discriminate. intros [K|K]; discriminate.
 Qed.
 
 (* C03_gate *)
-Theorem gate : forall v pool evs i, vrep v = true ->
-  mon_run i (snd (run v (init pool) evs)) mon0 <> None.
+Theorem gate : forall v pool p6 ppd evs i, vrep v = true -> vhl v = true ->
+  mon_run i (snd (run v (init3 pool p6 ppd) evs)) mon0 <> None.
 Proof.
-  intros v pool evs i Hv. destruct (run_Inv v i evs (init pool) mon0 false Hv (SInv_init i pool)) as (mn' & H & _).
+  intros v pool p6 ppd evs i Hv Hh. destruct (run_Inv v i evs (init3 pool p6 ppd) mon0 false Hv Hh (SInv_init i pool p6 ppd)) as (mn' & H & _).
   congruence.
 Qed.
 
 (* C03_reject_clean_partial *)
-Theorem reject_clean : forall v pool evs i s, vrep v = true ->
-  nth_error (sl (fst (run v (init pool) evs))) i = Some s ->
-  ever_ok i (snd (run v (init pool) evs)) mon0 false = false ->
+Theorem reject_clean : forall v pool p6 ppd evs i s, vrep v = true -> vhl v = true ->
+  nth_error (sl (fst (run v (init3 pool p6 ppd) evs))) i = Some s ->
+  ever_ok i (snd (run v (init3 pool p6 ppd) evs)) mon0 false = false ->
   inert s = true.
 Proof.
-  intros v pool evs i s Hv Hs He.
-  destruct (run_Inv v i evs (init pool) mon0 false Hv (SInv_init i pool)) as (mn' & _ & HS).
+  intros v pool p6 ppd evs i s Hv Hh Hs He.
+  destruct (run_Inv v i evs (init3 pool p6 ppd) mon0 false Hv Hh (SInv_init i pool p6 ppd)) as (mn' & _ & HS).
   rewrite He in HS. destruct (HS s Hs) as [[g1 g2 g3 g4 g5] a1 a2].
-  destruct (a2 eq_refl) as [A1 A2].
+  destruct (a2 eq_refl) as (A1 & A2 & A3).
   assert (N : in_net (ph s) = false).
   { destruct (in_net (ph s)) eqn:E; auto. specialize (a1 (g1 eq_refl)). discriminate. }
-  destruct (g2 N) as [Q1 Q2]. unfold inert, holds_nothing. rewrite A1, A2, N. unfold quietb in Q1, Q2.
+  destruct (g2 N) as [Q1 Q2]. unfold inert, holds_nothing. rewrite A1, A2, A3, N. unfold quietb in Q1, Q2.
   rewrite Q1, Q2. reflexivity.
 Qed.
 
@@ -249,53 +284,58 @@ Proof.
   induction t1 as [|[e o] r IH]; intros t2 mn; cbn [app mon_run]; auto.
   destruct (mon_outs i o (mon_in i e mn)); auto.
 Qed.
+(* no allowed AAA answer, delivered at once or held *)
+Definition not_allowed (e : event) : Prop :=
+  match e with EvAAA _ a | EvAAAHeld _ _ a => allowed_of a = false | _ => True end.
 Lemma accepted_in_none : forall i tr mn, mok mn = false -> mon_run i tr mn <> None ->
-  (forall k a, In (EvAAA k a) (map fst tr) -> allowed_of a = false) -> accepted_in i tr mn = false.
+  (forall e, In e (map fst tr) -> not_allowed e) -> accepted_in i tr mn = false.
 Proof.
   induction tr as [|[e o] r IH]; intros mn Hk Hr Ha; [reflexivity|].
   cbn [mon_run accepted_in map fst] in *.
   assert (K : mok (mon_in i e mn) = false).
-  { destruct e as [j|j f|k a|j t|j|j| ]; cbn [mon_in]; auto; try (destruct (Nat.eqb i j); auto).
-    destruct (mcur mn); auto. rewrite (Ha k a (or_introl eq_refl)), andb_false_r. auto. }
+  { pose proof (Ha e (or_introl eq_refl)) as Ne.
+    destruct e as [j|j f|k a|j t|j|j| |jh k a]; cbn [mon_in]; auto; try (destruct (Nat.eqb i j); auto).
+    - destruct (mcur mn); auto. cbn in Ne. rewrite Ne, andb_false_r. auto.
+    - destruct (mcur mn); auto. cbn in Ne. rewrite Ne, andb_false_r. auto. }
   rewrite K. cbn [orb]. destruct (mon_outs i o (mon_in i e mn)) as [mn'|] eqn:Eo; auto.
-  destruct (mon_outs_quiet _ _ _ _ K Eo) as [K1 _]. apply IH; auto. intros k a Hin. apply (Ha k a). right. auto.
+  destruct (mon_outs_quiet _ _ _ _ K Eo) as [K1 _]. apply IH; auto. intros e' Hin. apply (Ha e'). right. auto.
 Qed.
 
 (* C03_renegotiation_reauth: the monitor state mn1 reached after evs1 holds no accept (in particular:
    LCP has just left Opened, [lcp_down_clears]); until an allowed answer for the slot's current request
    arrives no service output is made for the slot *)
-Theorem reauth : forall v pool evs1 evs2 i mn1, vrep v = true ->
-  mon_run i (snd (run v (init pool) evs1)) mon0 = Some mn1 -> mok mn1 = false ->
-  accepted_in i (snd (run v (fst (run v (init pool) evs1)) evs2)) mn1 = false ->
-  no_service i (snd (run v (fst (run v (init pool) evs1)) evs2)) = true.
+Theorem reauth : forall v pool p6 ppd evs1 evs2 i mn1, vrep v = true -> vhl v = true ->
+  mon_run i (snd (run v (init3 pool p6 ppd) evs1)) mon0 = Some mn1 -> mok mn1 = false ->
+  accepted_in i (snd (run v (fst (run v (init3 pool p6 ppd) evs1)) evs2)) mn1 = false ->
+  no_service i (snd (run v (fst (run v (init3 pool p6 ppd) evs1)) evs2)) = true.
 Proof.
-  intros v pool evs1 evs2 i mn1 Hv H1 Hk Ha. apply mon_quiet with mn1; auto.
-  pose proof (gate v pool (evs1 ++ evs2) i Hv) as G. rewrite run_app in G. cbn [snd] in G.
+  intros v pool p6 ppd evs1 evs2 i mn1 Hv Hh H1 Hk Ha. apply mon_quiet with mn1; auto.
+  pose proof (gate v pool p6 ppd (evs1 ++ evs2) i Hv Hh) as G. rewrite run_app in G. cbn [snd] in G.
   rewrite mon_run_app, H1 in G. exact G.
 Qed.
-Theorem lcp_down_clears : forall v pool evs e i mn1,
-  mon_run i (snd (run v (init pool) (evs ++ [e]))) mon0 = Some mn1 ->
-  lcp_down_for i (snd (step v (fst (run v (init pool) evs)) e)) = true -> mok mn1 = false.
+Theorem lcp_down_clears : forall v pool p6 ppd evs e i mn1,
+  mon_run i (snd (run v (init3 pool p6 ppd) (evs ++ [e]))) mon0 = Some mn1 ->
+  lcp_down_for i (snd (step v (fst (run v (init3 pool p6 ppd) evs)) e)) = true -> mok mn1 = false.
 Proof.
-  intros v pool evs e i mn1 H Hd. rewrite run_app in H. cbn [snd] in H. rewrite mon_run_app in H.
-  destruct (mon_run i (snd (run v (init pool) evs)) mon0) as [mn|]; [|discriminate].
+  intros v pool p6 ppd evs e i mn1 H Hd. rewrite run_app in H. cbn [snd] in H. rewrite mon_run_app in H.
+  destruct (mon_run i (snd (run v (init3 pool p6 ppd) evs)) mon0) as [mn|]; [|discriminate].
   rewrite run_cons in H. cbn [snd run mon_run] in H.
   destruct (mon_outs i _ (mon_in i e mn)) as [mn'|] eqn:Eo; [|discriminate].
   inversion H; subst. eapply mon_outs_down; eauto.
 Qed.
 (* the same with the hypotheses spelled out on the events: LCP of slot i goes down at event e; afterwards no
    allowed AAA answer at all is delivered *)
-Theorem reauth_events : forall v pool evs1 e evs2 i, vrep v = true ->
-  lcp_down_for i (snd (step v (fst (run v (init pool) evs1)) e)) = true ->
-  (forall k a, In (EvAAA k a) evs2 -> allowed_of a = false) ->
-  no_service i (snd (run v (fst (run v (init pool) (evs1 ++ [e]))) evs2)) = true.
+Theorem reauth_events : forall v pool p6 ppd evs1 e evs2 i, vrep v = true -> vhl v = true ->
+  lcp_down_for i (snd (step v (fst (run v (init3 pool p6 ppd) evs1)) e)) = true ->
+  (forall e', In e' evs2 -> not_allowed e') ->
+  no_service i (snd (run v (fst (run v (init3 pool p6 ppd) (evs1 ++ [e]))) evs2)) = true.
 Proof.
-  intros v pool evs1 e evs2 i Hv Hd Ha.
-  destruct (mon_run i (snd (run v (init pool) (evs1 ++ [e]))) mon0) as [mn1|] eqn:E1;
+  intros v pool p6 ppd evs1 e evs2 i Hv Hh Hd Ha.
+  destruct (mon_run i (snd (run v (init3 pool p6 ppd) (evs1 ++ [e]))) mon0) as [mn1|] eqn:E1;
     [|exfalso; eapply gate; eauto].
-  pose proof (lcp_down_clears _ _ _ _ _ _ E1 Hd) as Hk.
+  pose proof (lcp_down_clears _ _ _ _ _ _ _ _ E1 Hd) as Hk.
   apply reauth with mn1; auto. apply accepted_in_none; auto.
-  - pose proof (gate v pool ((evs1 ++ [e]) ++ evs2) i Hv) as G. rewrite run_app in G. cbn [snd] in G.
+  - pose proof (gate v pool p6 ppd ((evs1 ++ [e]) ++ evs2) i Hv Hh) as G. rewrite run_app in G. cbn [snd] in G.
     rewrite mon_run_app, E1 in G. exact G.
   - rewrite run_events. exact Ha.
 Qed.
